@@ -49,6 +49,9 @@ def _shard(shard, nshards, payload):
     from bisturi.field import Field
     tier = payload['tier']
     bound = 1 if tier == 'quick' else 2
+    # bound 2 costs about the square of the number of scheduling points (~10^5 schedules per program): it is spent on the scenarios
+    # whose field objects keep per-parse state within reach (and on generated code, two threads); everything else runs at bound 1
+    DEEP = {'seq', 'bits', 'selector-shared', 'regex-nonkept', 'described', 'expr'}
     st = Stats()
     tot = {'schedules': 0, 'points': 0, 'overlaps': 0, 'states': 0, 'errors': []}
     bdir = os.path.dirname(bisturi.__file__)
@@ -56,6 +59,8 @@ def _shard(shard, nshards, payload):
         for gen in ((True,) if tier == 'quick' else (True, False)):
             for label, spec in programs(scname, tier):
                 b3 = bound if len(spec) == 2 else 1
+                if b3 == 2 and not (scname in DEEP and gen and label == 'unpack0|unpack1'):
+                    b3 = 1
                 worlds = []
 
                 def fresh(scname=scname, gen=gen, spec=spec, worlds=worlds):
@@ -130,7 +135,7 @@ def run(tier):
         'overlaps': st.n.get('overlaps', 0), 'preemptions': bound, 'threads': 2 if tier == 'quick' else 3,
         'samples': [s for s in st.samples if 'threads' in s][:2],
         'harness_errors': [n for n in st.notes if n.startswith('HARNESS')],
-        'rule': 'all schedules with <=%d preemptions (3 threads: <=1) of threads each doing unpack+pack+pack or construct+pack on distinct packets of one class, '
+        'rule': 'all schedules with <=%d preemptions (3 threads: <=1; two preemptions for the six scenarios seq, bits, selector-shared, regex-nonkept, described, expr on generated code, one elsewhere) of threads each doing unpack+pack+pack or construct+pack on distinct packets of one class, '
                 '%d scenarios%s; scheduling points = source lines inside bisturi and the generated modules; each thread must observe what it observes alone' % (
                     bound, len(THREAD_SCENARIOS), '' if tier == 'quick' else ' x generated/generic'),
     }
